@@ -1,4 +1,5 @@
 mod area;
+mod selection;
 mod binfmt;
 mod fonts;
 mod gfx;
@@ -45,6 +46,7 @@ fn main() {
         "c19" => small::c19(&a),
         "c20" => gfx::c20(&a),
         "area" => area::area(&a),
+        "selection" => selection::selection(&a),
         "igs" => igs::igs(&a),
         "rip" => rip::rip(&a),
         other => {
